@@ -27,11 +27,15 @@ func load(withShapes bool) {
 	}
 	all = corpus
 	if withShapes {
-		drw := &dialect.ReadWriter{Dialect: &dialect.Dialect{Version: 3, Messages: shapes.All}}
-		if err := drw.Initialize(); err != nil {
-			bx.Fatalf("user shapes dialect rejected by the library: %v", err)
+		accepted, _ := gm.AcceptedShapes(shapes.All)
+		if len(accepted) == 0 {
+			bx.Fatalf("the library refuses every one of the %d user-defined shapes: nothing to check", len(shapes.All))
 		}
-		for _, m := range shapes.All {
+		drw := &dialect.ReadWriter{Dialect: &dialect.Dialect{Version: 3, Messages: accepted}}
+		if err := drw.Initialize(); err != nil {
+			bx.Fatalf("user shapes accepted one by one but refused as a dialect: %v", err)
+		}
+		for _, m := range accepted {
 			t := reflect.TypeOf(m).Elem()
 			def, _ := ref.DefFromStruct(t, m.GetID())
 			all = append(all, &gm.MsgType{Dialect: "shapes", Type: t, ID: m.GetID(), Def: def, RW: drw.GetMessage(m.GetID()), DRW: drw, Proto: m})
